@@ -23,11 +23,12 @@ BUDGET = {"quick": 420, "thorough": 12000}
 WALL = {"quick": 300, "thorough": 3400}
 TECHNIQUE = "deterministic simulation: seeded session histories under a per-run formatter configuration read through the project's pyproject.toml; the harness re-formats independently and compares"
 LEVEL_TEXT = ("seeded search over black options in pyproject.toml x clean / unclean files x change sets with values just over the line limit and magic trailing "
-              "commas inside inserted elements x 1-2 sessions, real pytest sessions in the project directory (black resolves the pyproject from the cwd); sampling")
+              "commas inside inserted elements x 1-2 sessions, real pytest sessions started in the project directory or next to it; sampling")
 LEVEL_NOTE = "trusted: black itself (called by the harness with a mode built from the same options); black's own instabilities are attributed by a second formatting pass and counted"
 RULE = ("one run = project (1-2 files) + [tool.black] options + approved set + 1-2 sessions; clean files must stay fixed points of black with the project's mode; "
         "distinct = (options, clean?, categories, #changed arguments); non-trivial = a clean file that a session changed")
-ASSUMPTIONS = ["pyproject.toml sits in the directory pytest is started in (black resolves it from the cwd)", "real black only (no format-command) for the clean clause"]
+RULE += " Dimensions added while testing against seeded changes: sessions started in a neighbouring project directory that configures a format-command of its own; a black that fails for single value fragments only; sub-package with its own pyproject.toml; trim-only sessions."
+ASSUMPTIONS = ["pyproject.toml with [tool.black] sits in the project directory (the session may be started elsewhere)", "real black only (no format-command in the project) for the clean clause"]
 REAL_VS_STUB = {
     "real": ["pytest", "inline_snapshot plugin + library from /repo/src (file_mode_for_path, format_code)", "black", "pyproject.toml read by black's own parser"],
     "stub": ["the user"],
